@@ -226,12 +226,22 @@ impl Array6 {
         estimator.set_kxq1(kxq1);
         estimator.set_out_of_order(ooo);
 
-        Ok(Self {
+        let array = Self {
             lg_config_k,
             bytes: data.into_boxed_slice(),
             num_zeros,
             estimator,
-        })
+        };
+
+        // update() decrements the count for every zero register it fills
+        let actual_zeros = (0..k).filter(|&slot| array.get(slot) == 0).count();
+        if actual_zeros != num_zeros as usize {
+            return Err(Error::deserial(format!(
+                "num_zeros is {num_zeros} but {actual_zeros} registers are zero"
+            )));
+        }
+
+        Ok(array)
     }
 
     /// Serialize Array6 to bytes
